@@ -243,6 +243,13 @@ def run_histories_stacked(ctx, rng, N, maxlen):
         make = (lambda: xe.cross.MCA(n_modes=2, use_pca=False, solver="full", random_state=7)) if cross else \
             (lambda: getattr(xe.single, name)(n_modes=2, solver="full", random_state=7))
         pool = [mk(kind, [2000 + 10 * j + q for q in range(4 if j < 3 else 3)], p) for j in range(4)]
+        if i % 3 == 1:
+            # one of the other data sets has an entirely missing sample (legitimate input for fit and for transform)
+            pool[1] = pool[1].copy()
+            if kind == "two-dims":
+                pool[1].values[1, 0, :] = np.nan
+            else:
+                pool[1].values[2, :] = np.nan
         m = make()
         hist, last, fits = [], None, 0
         aborted = False
